@@ -11,12 +11,15 @@ def memory_model(ctx, want, progs=None, avoid=()):
     """C02 (complete) / C03 (sound) share the litmus family and the runs."""
     progs = progs if progs is not None else families.litmus(ctx.tier, ctx.seed, avoid=avoid)
     lower, upper = core.lower_upper(ctx, progs, families.has_sc_access, coverage=True)
-    res = core.run_loom(ctx, progs, cfg_of=lambda p: {"iter_cap": iter_cap(ctx.tier), "trace_cap": 0})
+    tcap = 0 if "trace" not in want else (30 if ctx.tier == "quick" else 400)
+    res = core.run_loom(ctx, progs, cfg_of=lambda p: {"iter_cap": iter_cap(ctx.tier), "trace_cap": tcap})
     nontriv = 0
     for p, lo, up, r in zip(progs, lower, upper, res):
         if core.compare_sandwich(ctx, p, lo, up, r, want=want):
             nontriv += 1
         core.sample(ctx, p, lo, up, r)
+    if "trace" in want:
+        core.validate_traces(ctx, progs, res)
     ctx.cov["programs"] += len(progs)
     ctx.cov["evaluations"] += len(progs)
     ctx.cov["distinct_nontrivial"] += nontriv
@@ -36,7 +39,7 @@ def C03(ctx):
                         "every store writes a distinct value per location, so an outcome fixes reads-from"]
     ctx.notes.append("random tail quarantined for open findings F3/F4 (families.q_mo); the enumerated core keeps "
                      "the multi-writer shapes and re-confirms the listed witnesses")
-    memory_model(ctx, ("sound",), avoid=(families.q_mo,))
+    memory_model(ctx, ("sound", "trace"), avoid=(families.q_mo,))
 
 
 CHECKS = {"C02": C02, "C03": C03}
